@@ -271,6 +271,33 @@ func checkC13(c *Ctx) {
 			"repeater N <= non-repeater N", fmt.Sprintf("repeater N=%d, non-repeater N=%d (at %s)", rp.N, np.N, P.Rel(np.Pos)), rp.N != np.N)
 	}
 	c13FallbackKeys(c)
+	// the tables are per band object, and the lookups are functions of the tables only
+	ruleFreshBands(c, "R9.fresh-tables")
+	c13QueriesPure(c)
+}
+
+// c13QueriesPure (R8): the data-rate and payload-size lookups write nothing (no result cache keyed by part of the
+// parameters, no bookkeeping): their answers are functions of the band's tables and the arguments.
+func c13QueriesPure(c *Ctx) {
+	const rule = "R8.queries-pure"
+	r := c.Run
+	r.Rule(rule, "GetDataRateIndex, GetDataRate and GetMaxPayloadSizeForDataRateIndex and their callees write nothing through the receiver, parameters or package-level variables")
+	info := effectsFor(c.Prog)
+	sp := c.Prog.SSAPkg("band")
+	n := 0
+	for _, f := range info.Funcs {
+		if f.Pkg != sp || f.Signature.Recv() == nil || f.Synthetic != "" {
+			continue
+		}
+		switch f.Name() {
+		case "GetDataRateIndex", "GetDataRate", "GetMaxPayloadSizeForDataRateIndex":
+			n++
+			readOnlyObligation(c, info, rule, f)
+		}
+	}
+	if n == 0 {
+		r.Unknown(rule, "band", "", "lookup methods found", "none")
+	}
 }
 
 // c13PayloadLookup specialises GetMaxPayloadSizeForDataRateIndex at every (version, revision, DR) point — the six
